@@ -97,6 +97,29 @@ PropClause(T, I, D, e) ==
   ELSE IF ~SizesOK(T) THEN "Inv_SizesOK"
   ELSE ""
 
+(* ---- contract mode -------------------------------------------------------------------------
+   The conf_ clauses bind the Spec's implementation-shaped state (download pointer, sizes, the heap
+   of overwrites, which read fires at which event, the temporary file) to the real object.  A
+   legitimate refactoring may keep C39 and still change that internal shape (e.g. keep the
+   overwrites as eagerly merged intervals instead of a heap).  A conf_ mismatch is therefore not a
+   verdict: it is noted (VF_NOTE) and the rest of the history is judged in *contract mode*, from
+   what the client can observe only: every read that fires returns the ideal slice, the committed
+   file equals the ideal file, and no read is left waiting once the download has finished.  *)
+ReadEv(rid) == CHOOSE i \in 1..Len(Events) : Events[i].ev = "Read" /\ Events[i].rid = rid
+FiredUpTo(n) == UNION {{r.rid : r \in ToSet(Events[i].reads)} : i \in 1..n}
+IssuedUpTo(n) == {Events[i].rid : i \in {j \in 1..n : Events[j].ev = "Read"}}
+ContractClause(e, I, n) ==
+  IF e.raised # "" THEN "C39_call_raised"
+  ELSE IF \E r \in ToSet(e.reads) :
+            LET q == Events[ReadEv(r.rid)] IN
+            r.err # "" \/ r.eof # IdealEOF(I, q.off) \/ (~r.eof /\ r.res # IdealRead(I, q.off, q.len))
+    THEN "C39_ReadEqualsIdeal"
+  ELSE IF e.ev = "Final" /\ e.obs.file # I THEN "C39_FinalEqualsIdeal"
+  ELSE IF e.ev \in {"Final", "Close"} /\ IssuedUpTo(n) # FiredUpTo(n) THEN "C39_NoWaiterWhenDone"
+  ELSE ""
+InternalClause(c) == c \in {"conf_downloaded", "conf_download_size", "conf_current_size", "conf_overwrites_heap",
+                            "conf_done", "conf_reads_fired", "conf_tempfile", "conf_read_result"}
+
 TraceInit ==
   /\ tid \in 1..Len(Traces)
   /\ l = 1
@@ -110,9 +133,12 @@ TraceNext ==
   /\ bad = "none"
   /\ l <= Len(Events)
   /\ LET e  == Ev
-         ok0 == KnownEvent(e) /\ ContractOK(S, e)
+         \* (in contract mode S is no longer followed: quiescence is read off the trace)
+         ok0 == KnownEvent(e) /\ (IF rule = "contract"
+                                   THEN (e.ev \in {"Overwrite", "SetSize", "Final", "Close"} => IssuedUpTo(l - 1) = FiredUpTo(l - 1))
+                                   ELSE ContractOK(S, e))
          N1 == IF ok0 THEN StepS(S, e, rule) ELSE S
-         c1 == IF ~KnownEvent(e) THEN "unknown_event" ELSE IF ~ContractOK(S, e) THEN "harness_contract"
+         c1 == IF ~KnownEvent(e) THEN "unknown_event" ELSE IF ~ok0 THEN "harness_contract"
                ELSE IF RaisedClause(S, N1, e) # "" THEN RaisedClause(S, N1, e) ELSE MatchClause(N1, e)
          N2 == IF ok0 /\ c1 # "" /\ rule = "max" THEN StepS(S, e, "code") ELSE N1
          c2 == IF ok0 /\ c1 # "" /\ rule = "max" THEN MatchClause(N2, e) ELSE c1
@@ -122,10 +148,19 @@ TraceNext ==
          I2 == StepI(ideal, e)
          D2 == StepD(dirty, ideal, e)
          pc == IF ConfOnly THEN "" ELSE PropClause(N, I2, D2, e)
-         c  == IF c1 # "" /\ ~sw THEN c1
+         c0 == IF c1 # "" /\ ~sw THEN c1
                ELSE IF pc # "" THEN (IF r2 = "code" THEN pc \o "@merge_rule" ELSE pc)
                ELSE ""
-     IN IF c = ""
+         \* an internal (conf_) mismatch switches to contract mode; in contract mode only ContractClause judges
+         toContract == rule # "contract" /\ ~ConfOnly /\ InternalClause(c0)
+         contract == rule = "contract" \/ toContract
+         c  == IF contract THEN (IF ok0 THEN ContractClause(e, I2, l) ELSE c1) ELSE c0
+     IN IF c = "" /\ contract
+          THEN /\ S' = S /\ ideal' = I2 /\ dirty' = D2 /\ rule' = "contract"
+               /\ l' = l + 1 /\ bad' = "none"
+               /\ (toContract => PrintT(<<"VF_NOTE", tid, l, "internal_shape_differs_" \o c0>>))
+               /\ (l = Len(Events) => PrintT(<<"VF_ACCEPT", tid, l>>))
+        ELSE IF c = ""
           THEN /\ S' = [N EXCEPT !.fired = {}]
                /\ ideal' = I2 /\ dirty' = D2 /\ rule' = r2
                /\ l' = l + 1 /\ bad' = "none"
